@@ -523,8 +523,9 @@ func (w *Whisper) fetchRawPoints(archiveID int, fromInterval, untilInterval Time
 	step := r.secondsPerPoint
 	points := make([]Point, untilInterval.Sub(fromInterval)/step)
 
-	fromOffset := r.pointOffsetAt(r.pointIndex(baseInterval, fromInterval))
-	untilOffset := r.pointOffsetAt(r.pointIndex(baseInterval, untilInterval))
+	fromIndex := r.pointIndex(baseInterval, fromInterval)
+	fromOffset := r.pointOffsetAt(fromIndex)
+	untilOffset := r.pointOffsetAt(int((int64(fromIndex) + int64(len(points))) % int64(r.numberOfPoints)))
 	if fromOffset < untilOffset {
 		i := 0
 		for off := fromOffset; off < untilOffset; off += pointSize {
